@@ -21,7 +21,7 @@ Fixpoint list2_eqb (a b : list (N * bool)) : bool :=
 (* the model dispatches exactly the translated opcodes, and marks as async exactly the arms that await an
    async handler (INIT is handled by do_init in the model: a fall-back arm) *)
 Lemma async_table_matches :
-  list2_eqb (sort2 ((26, false) :: map fst async_handlers))
+  list2_eqb (sort2 ((26, false) :: map fst (async_handlers code_shape)))
             (sort2 (map (fun e => (fst (fst e), snd e)) rust_async_dispatch)) = true.
 Proof. vm_compute. reflexivity. Qed.
 
@@ -51,11 +51,16 @@ Definition call_ok (e : N * string * list string) : bool :=
 Lemma async_handlers_await_the_async_twin : forallb call_ok rust_async_calls = true.
 Proof. vm_compute. reflexivity. Qed.
 
-(* shape of the code the model's gate, write gate, default arm and async_commit are written from.
-   When a fix changes one of these, this lemma stops checking and the model has to follow. *)
-Lemma async_shape_matches :
-  rust_async_gate_checks_capacity = true /\ rust_async_gate_exempts_forget = false /\
-  rust_async_gate_errno = ENOMEM /\ rust_async_write_gate_errno = ENOMEM /\
-  rust_async_default_errno = ENOSYS /\
-  rust_commit_skips_unbuffered = true /\ rust_async_commit_skips_unbuffered = false.
+(* the errnos the model's gate, write gate and default arm use are the code's (0 = the write gate is absent);
+   commit() has the early return the model of the sync writer (w_commit) has *)
+Lemma async_errnos_match :
+  rust_async_gate_errno = ENOMEM /\
+  ((rust_async_write_gate_errno =? ENOMEM) || (rust_async_write_gate_errno =? 0)) = true /\
+  rust_async_default_errno = ENOSYS /\ rust_commit_skips_unbuffered = true.
 Proof. repeat split; reflexivity. Qed.
+
+(* the code as it is: all four defects present.  When a fix lands this lemma (and the C20_refuted_* witnesses
+   that rest on the same facts) stops checking, while C20_partial keeps holding for the new shape. *)
+Lemma code_shape_is :
+  code_shape = {| sh_gate_capacity := true; sh_gate_exempts_forget := false; sh_write_gate := true; sh_commit_skips := false |}.
+Proof. reflexivity. Qed.
